@@ -28,12 +28,12 @@ def run(ctx):
         kind, tx, line = rxlib.near_miss_line(rng)
         cases.append((kind, tx, line, True))
     # long runs at a low rate: the forced end-of-message path (135 s timer) and what follows it
-    for j in range(5 if quick else 30):
+    for j in range(6 if quick else 36):
         H = samegen.gen_header(rng, nloc=1)
         H2 = samegen.gen_header(rng, nloc=2)
         tx = rxlib.Tx(rng, H=H, rate=rng.choice([8000] if quick else [8000, 11025]), impaired=False)
         hdr3 = ",".join("B%s,S1" % rxlib.burst_hex(H) for _ in range(3))
-        k = j % 5
+        k = j % 6
         if k == 0:
             script, kind, forbid = "S0.3," + hdr3 + ",S%d,B%s,S4,B%s,S3" % (rng.range(136, 141), rxlib.burst_hex(H2), rxlib.burst_hex(rng.bytes(30))), "timeout-then-lone-bursts", False
         elif k == 1:
@@ -43,6 +43,14 @@ def run(ctx):
             script, kind, forbid = "S0.3," + hdr3 + ",S138," + ",".join("B%s,S1" % rxlib.burst_hex(b"NNNN") for _ in range(3)) + ",S2", "timeout-then-trailer", False
         elif k == 3:
             script, kind, forbid = "S0.3,B%s,S%d,N3:2000,S1" % (rxlib.burst_hex(H), rng.range(136, 140)), "lone-burst-then-long-silence", True
+        elif k == 5:
+            # two agreeing bursts, then reset() while the StartOfMessage is still held, then silence: what follows a reset contains
+            # no burst at all, so nothing may be reported from it (the events listed are those after the reset)
+            dur = (16 + len(H)) * 8 / 520.83
+            t_reset = 0.3 + 2 * dur + 1.0 + 0.1 + rng.below(10) / 10.0
+            script, kind, forbid = "S0.3,B%s,S1,B%s,S16" % (rxlib.burst_hex(H), rxlib.burst_hex(H)), "pair-reset-while-held-then-silence", True
+            cases.append((kind, tx, tx.line(script=script, extra="reset_at=%d" % int(t_reset * tx.rate)), forbid))
+            continue
         else:
             # the same lone burst twice, far more than the history window apart, with un-framed carrier activity (preamble-only
             # blips) in between at intervals shorter than the window: the first burst must have been forgotten
@@ -64,7 +72,7 @@ def run(ctx):
         bad = rxlib.oracle_justified(ev, tx.rate)
         if bad is None and forbid and any(e["kind"] == "som" for e in ev):
             bad = "audio of kind '%s' (no two agreeing SAME header bursts) produced a StartOfMessage" % kind
-        if bad is None and forbid and any(e["kind"] == "eom" for e in ev) and kind in ("garbled-pair-then-long-silence", "lone-burst-then-long-silence"):
+        if bad is None and forbid and any(e["kind"] == "eom" for e in ev) and kind in ("garbled-pair-then-long-silence", "lone-burst-then-long-silence", "pair-reset-while-held-then-silence"):
             bad = "audio of kind '%s' (no StartOfMessage, no NN burst) produced an EndOfMessage" % kind
         if bad:
             ctx.violation("property", bad, {"input": line, "kind": kind, "events": r["impl"][:3000]})
